@@ -175,7 +175,8 @@ func (c *Ctx) SortedPkgs() []*packages.Package {
 
 // IsGenerated reports whether the file is generated code (never a rule subject).
 func (c *Ctx) IsGenerated(f *ast.File) bool {
-	name := c.Fset.Position(f.Pos()).Filename
+	// PositionFor(.., false): ignore //line directives (y.go reports itself as shell.y)
+	name := c.Fset.PositionFor(f.Pos(), false).Filename
 	base := filepath.Base(name)
 	return strings.HasSuffix(base, ".pb.go") || base == "y.go"
 }
